@@ -21,9 +21,6 @@ import sys
 import time
 
 VERIF = os.path.dirname(os.path.abspath(__file__))  # also in engines.py
-HARNESS = os.path.join(VERIF, "harness")
-REPO = "/repo"
-NCPU = min(16, os.cpu_count() or 1)
 sys.path.insert(0, VERIF)
 
 from engines import *  # noqa: F401,F403,E402
@@ -267,7 +264,8 @@ def check(prop, tier, seed):
     logdir = os.path.join(VERIF, "logs", f"{prop}-{tier}")
     shutil.rmtree(logdir, ignore_errors=True)
     os.makedirs(logdir, exist_ok=True)
-    os.makedirs(os.path.join(VERIF, "evidence"), exist_ok=True)
+    evdir = os.environ.get("MB2_EVIDENCE_DIR", os.path.join(VERIF, "evidence"))
+    os.makedirs(evdir, exist_ok=True)
     inconclusive = []
     # 1. build
     fuzz_runs = [r for r in plan if r["engine"] == "fuzz"]
@@ -408,7 +406,7 @@ def check(prop, tier, seed):
         violations=len(new_viol),
         verdict="violated" if new_viol else ("held-on-observed" if decided else "inconclusive"),
     )
-    with open(os.path.join(VERIF, "evidence", f"{prop}.json"), "w") as f:
+    with open(os.path.join(evdir, f"{prop}.json"), "w") as f:
         json.dump(ev, f, indent=1, sort_keys=True)
     print(f"{prop} [{tier}] seed={seed}: evaluations={evaluations} distinct_nontrivial={len(hashes)} "
           f"violations={len(new_viol)} known={len(known_hits)} inconclusive_notes={len(inconclusive)} wall={wall:.1f}s")
